@@ -5,7 +5,10 @@
    repeated-step flag, the values of the variables, each a list of components), [ESave] (the state is written),
    [ERestart None] (the state is written and read by a fresh instance with the same configuration),
    [ERestart (Some g)] (the same with rebinGrids on and the new grid boundaries g) or [EReload] (the state is written
-   and read back by the same instance, which already holds hills).
+   and read back by the same instance, which already holds hills) or [EReconf p] (a restart after which the job goes
+   on with other gaussianSigmas / hillWidth, hillWeight, newHillFrequency).  Every hill keeps the widths it was created
+   with ([h_s], as the code stores them in each hill and in the state): [K_h] uses the widths of the hill, not those
+   configured now.  [final_cfg c hist] is the configuration in force after hist.
    [final_state Rops c hist] is the state of the model of colvarbias_meta after the history;
    [out_energy c hist i] / [out_force c hist i k] are the energy and the force on variable k (a list of components)
    that update() returns at the next step i.  The specification keeps only the list of hills deposited so far,
@@ -67,8 +70,9 @@ Print Assumptions C05_schedule.
 Theorem C05_deposited : forall (c : cfgR) (hist : list eventR) (i : inR),
   s_all (spec_run c (hist ++ [EStep i])) =
   s_all (spec_run c hist) ++
-  (if eligible c i
-   then [mkHill (i_it i) (spec_height c (spec_expand c (spec_run c hist) (i_x i)) i) (i_x i)] else []).
+  (let c' := final_cfg c hist in
+   if eligible c' i
+   then [mkHill (i_it i) (spec_height c' (spec_expand c' (spec_run c hist) (i_x i)) i) (i_x i) (c_sigmas c')] else []).
 Proof. exact deposited_snoc. Qed.
 Print Assumptions C05_deposited.
 
@@ -77,14 +81,19 @@ Theorem C05_deposited_save : forall (c : cfgR) (hist : list eventR),
 Proof. exact deposited_save. Qed.
 Print Assumptions C05_deposited_save.
 
+(* a reconfiguration deposits nothing and leaves every hill as it is (step, height, centre, widths) *)
+Theorem C05_deposited_reconf : forall (c : cfgR) (hist : list eventR) (p : @params R),
+  s_all (spec_run c (hist ++ [EReconf p])) = s_all (spec_run c hist).
+Proof. exact deposited_reconf. Qed.
+Print Assumptions C05_deposited_reconf.
+
 Theorem C05_deposited_restart : forall (c : cfgR) (hist : list eventR) (r : option (list boundR)),
   s_all (spec_run c (hist ++ [ERestart r])) = s_all (spec_run c hist).
 Proof. exact deposited_restart. Qed.
 Print Assumptions C05_deposited_restart.
 
 Theorem C05_deposited_plain : forall (c : cfgR) (hist : list eventR), c_wt c = false -> c_eb c = false ->
-  s_all (spec_run c hist) =
-  map (fun i => mkHill (i_it i) (c_weight c) (i_x i)) (filter (eligible c) (steps_of hist)).
+  s_all (spec_run c hist) = plain_hills c hist.
 Proof. exact deposited_plain. Qed.
 Print Assumptions C05_deposited_plain.
 
@@ -92,8 +101,9 @@ Print Assumptions C05_deposited_plain.
 Theorem C05_tabulated : forall (c : cfgR) (hist : list eventR) (i : inR), c_use_grids c = true ->
   s_pend (spec_run c (hist ++ [EStep i])) = (if (i_it i mod c_gfreq c =? 0)%Z then [] else
      s_pend (spec_run c hist) ++
-     (if eligible c i
-      then [mkHill (i_it i) (spec_height c (spec_expand c (spec_run c hist) (i_x i)) i) (i_x i)] else [])).
+     (let c' := final_cfg c hist in
+      if eligible c' i
+      then [mkHill (i_it i) (spec_height c' (spec_expand c' (spec_run c hist) (i_x i)) i) (i_x i) (c_sigmas c')] else [])).
 Proof. exact tabulated_snoc. Qed.
 Print Assumptions C05_tabulated.
 
@@ -153,13 +163,13 @@ Proof. exact trajectory_holds. Qed.
 Print Assumptions C05_hills_trajectory.
 
 (* Discretisation: with grids the returned energy differs from the analytic sum of ALL deposited hills at the actual
-   position by at most  (sum over the tabulated hills of |W_h|) * (exp(-1/2) * sum_i width_i/(2 sigma_i) + exp(-23/2)):
+   position by at most  Bsum = sum over the tabulated hills h of |W_h| * (exp(-1/2) * sum_i width_i/(2 sigma_{h,i}) + exp(-23/2)):
    the Gaussian exp(-t^2/2) is exp(-1/2)-Lipschitz, a position on the grid is within half a bin of the centre of its
    bin, and the kernel jumps by less than exp(-23/2) at its cut-off.  Scalar, non-periodic variables ([plain_var]). *)
 Theorem C05_discretisation_energy : forall (c : cfgR) (hist : list eventR) (i : inR),
   cfg_ok c -> history_ok c (hist ++ [EStep i]) -> c_use_grids c = true -> Forall plain_var (c_vars c) ->
   (Rabs (out_energy c hist i - Esum (c_vars c) (s_all (spec_run c (hist ++ [EStep i]))) (i_x i))
-   <= Wsum (s_tab (spec_run c (hist ++ [EStep i]))) * lip_bound (c_vars c))%R.
+   <= Bsum (c_vars c) (s_tab (spec_run c (hist ++ [EStep i]))))%R.
 Proof. exact energy_discretisation. Qed.
 Print Assumptions C05_discretisation_energy.
 
@@ -191,7 +201,7 @@ Example C05_premises_satisfiable :
   cfg_ok w_cfg /\ history_ok w_cfg ([EStep w_i1] ++ [EStep w_i2]) /\
   in_grid w_cfg (c_geom0 w_cfg) (i_x w_i1) = true /\ in_grid w_cfg (c_geom0 w_cfg) (i_x w_i2) = false /\
   eligible w_cfg w_i1 = true /\
-  spec_run w_cfg ([EStep w_i1] ++ [EStep w_i2]) = mkS [mkHill 2%Z (1 * (1 * 1))%R [[(3/2)%R]]] [] (c_geom0 w_cfg).
+  spec_run w_cfg ([EStep w_i1] ++ [EStep w_i2]) = mkS [mkHill 2%Z (1 * (1 * 1))%R [[(3/2)%R]] [1%R]] [] (c_geom0 w_cfg).
 Proof. exact w_example. Qed.
 
 Example C05_premises_satisfiable_expand_periodic_wt :
@@ -206,7 +216,7 @@ Proof. exact v_example. Qed.
 
 Example C05_premises_satisfiable_rebin :
   cfg_ok r_cfg /\ history_ok r_cfg [EStep w_i1; ERestart (Some r_g); EStep w_i2] /\
-  spec_run r_cfg [EStep w_i1; ERestart (Some r_g); EStep w_i2] = mkS [mkHill 2%Z (1 * (1 * 1))%R [[(3/2)%R]]] [] r_g /\
+  spec_run r_cfg [EStep w_i1; ERestart (Some r_g); EStep w_i2] = mkS [mkHill 2%Z (1 * (1 * 1))%R [[(3/2)%R]] [1%R]] [] r_g /\
   in_grid r_cfg r_g (i_x w_i2) = true.
 Proof. exact r_example. Qed.
 
@@ -222,9 +232,16 @@ Proof. exact n_example. Qed.
 
 Example C05_discretisation_premises_satisfiable :
   cfg_ok w_cfg /\ history_ok w_cfg ([EStep w_i1] ++ [EStep w_i2]) /\ c_use_grids w_cfg = true /\
-  Forall plain_var (c_vars w_cfg) /\ lip_bound (c_vars w_cfg) = (exp (- (1 / 2)) * (1 / (2 * 1) + 0) + exp (- (23 / 2)))%R.
+  Forall plain_var (c_vars w_cfg) /\ lip_bound (c_vars w_cfg) [1%R] = (exp (- (1 / 2)) * (1 / (2 * 1) + 0) + exp (- (23 / 2)))%R.
 Proof.
   destruct w_example as (H1 & H2 & _). split; [exact H1|]. split; [exact H2|]. split; [reflexivity|]. split; [|reflexivity].
-  apply Forall_cons; [|apply Forall_nil]. unfold plain_var, w_var. cbn [v_kind v_periodic v_gperiodic v_sigma v_width].
+  apply Forall_cons; [|apply Forall_nil]. unfold plain_var, w_var. cbn [v_kind v_periodic v_gperiodic v_width].
   repeat split; lra.
 Qed.
+
+Example C05_premises_satisfiable_reconfiguration :
+  cfg_ok w_cfg /\ history_ok w_cfg [EStep w_i1; EReconf p_w; EStep w_i2] /\
+  cfg_ok v_cfg /\ history_ok v_cfg [EStep v_i1; EReconf p_v; EStep v_i2] /\
+  c_sigmas (final_cfg w_cfg [EStep w_i1; EReconf p_w]) = [(1/2)%R] /\
+  s_all (spec_run w_cfg [EStep w_i1; EReconf p_w]) = [mkHill 2%Z (1 * (1 * 1))%R [[(3/2)%R]] [1%R]].
+Proof. exact reconf_example. Qed.
